@@ -82,7 +82,9 @@ piece = st.one_of(
 )
 supported = st.lists(piece, max_size=14).map("".join)
 foreign = st.one_of(st.characters(), st.sampled_from(list("_,;:'\"#$%&?@\\`{|}~<>") + ["é", "×", "÷", "−", "—", "²", "π", " ", "\x00", "٣", "１"]))
-with_foreign = st.builds(lambda a, f, b: a + f + b, supported, foreign, supported)
+exotic_blank = st.sampled_from(["\x0b", "\x0c", "\x1c", "\x1f", "\x85", "\xa0", "\u2003", "\u3000", "\u200b", "\ufeff"])
+after_padding = st.builds(lambda a, ws, f, b: a + ws + f + b, supported, st.sampled_from([" ", "\t", "\n", "  ", "\r\n"]), exotic_blank, supported)
+with_foreign = st.one_of(st.builds(lambda a, f, b: a + f + b, supported, foreign, supported), after_padding)
 
 
 def check_string(ctx, case):
